@@ -12,13 +12,14 @@ func Run(c *fw.Ctx) {
 	// directed lists (generated from a fixed seed, independent of VERIF_SEED)
 	c.Cases("bfgs.directed", 12, func(cs *fw.Case) { caseBFGS(cs, cs.Index) })
 	c.Cases("newton.directed", 400, caseNewtonDirected)
-	c.Cases("rprop.directed", 12, func(cs *fw.Case) { caseRprop(cs, cs.Index) })
+	c.Cases("rprop.directed", 12, func(cs *fw.Case) { caseRprop(cs, cs.Index, "") })
 	c.Cases("blahut.directed", 12, func(cs *fw.Case) { caseBlahut(cs, cs.Index) })
 	c.Cases("saga.directed", 16, func(cs *fw.Case) { caseSaga(cs, cs.Index) })
 	// seeded random lists
 	c.Cases("bfgs", c.N(3000, 24000), func(cs *fw.Case) { caseBFGS(cs, -1) })
 	c.Cases("newton", c.N(4000, 32000), caseNewton)
-	c.Cases("rprop", c.N(2400, 20000), func(cs *fw.Case) { caseRprop(cs, -1) })
+	c.Cases("rprop", c.N(2400, 20000), func(cs *fw.Case) { caseRprop(cs, -1, "") })
+	c.Cases("rprop.constrained", c.N(800, 6000), func(cs *fw.Case) { caseRprop(cs, -1, []string{"hit", "near"}[cs.Index%2]) })
 	c.Cases("gradientDescent", c.N(1500, 12000), caseGD)
 	c.Cases("adam", c.N(1200, 10000), caseAdam)
 	c.Cases("saga", c.N(2000, 16000), func(cs *fw.Case) { caseSaga(cs, -1) })
